@@ -13,6 +13,8 @@
 -/
 import NemoVerif.Lemmas.CoreIndex
 import NemoVerif.Lemmas.CoreVM
+import NemoVerif.Lemmas.CoreVMNoStopping
+import NemoVerif.Lemmas.CoreVMParked
 
 namespace NemoVerif.C09
 open NemoVerif.CoreIndex
@@ -225,6 +227,7 @@ theorem delete_registered_head_leaves_stale_entry :
   hypothesis — no separate simulation argument is needed. -/
 
 open NemoVerif.CoreVM
+open Std.Do
 
 /-- **`queue_empty_at_exit`** (proved from the structure of the three nested loops): whenever
     `runToCompletion` returns normally — for every program, every state, every event, every fuel, every
@@ -327,25 +330,198 @@ theorem scan_eq_scanP (P : FUid → Nat → Option String) (s : IState) (hc : Co
       · rfl
   exact key s.insts hc
 
+/-! ## `no_stopping_at_exit` — derived from the interpreter logic (phase 4)
+
+  `runToCompletion = runBody; exitAssertion` (`runToCompletion_eq`, by `rfl`-unfolding), where `runBody` is the model of
+  `run_to_completion` itself (clean-up and the three nested loops) and `exitAssertion` the run-time check the model used to
+  rely on.  The theorems below show, by a Hoare logic over the model monad (`Lemmas/CoreVMHoare.lean`, on top of
+  `Std.Do` / `mvcgen`) with ONE PRESERVATION LEMMA PER MODEL FUNCTION (`Lemmas/CoreVMKeeps*.lean`), that the body never
+  leaves an instance STOPPING, so the assertion can never fire from a state without STOPPING instance:
+    * STOPPING is written only by the `Abort` element of `slide`, for the sliding flow `f` itself, immediately followed
+      by moving the sliding head behind the last element (`slide_writes_stopping_only_for_its_own_flow`);
+    * every other model function keeps "only the instances `A` are STOPPING" for every `A`, on normal return AND when it
+      raises (the state at the raise is what the `try/except` of `_advance_head_front` continues with);
+    * the heads handed back by `slide` belong to `f`, the nested `_advance_head_front` over them changes nothing while
+      `f` is STOPPING, the second half of the try block then finds the head behind the last element and the status
+      STOPPING (`abo`), the exception handler sets `flow_aborted`, and `_abort_flow(f)` leaves `f` STOPPED
+      (`advance_head_front_restores_no_stopping`, induction on the fuel with the nested call);
+    * errors are never caught above `_advance_head_front`, so the loops of `run_to_completion` only need its
+      normal-return half. -/
+
+/-- `_abort_flow` and `_finish_flow` never make an instance STOPPING (they keep "only `A` is STOPPING" for every `A`,
+    on every outcome). -/
+theorem abort_and_finish_never_write_stopping (A : List FUid) (fuel : Nat) (f : FUid) (sc : List Score) (d : Bool) :
+    Keeps (stopInv A) (abortFlow fuel f sc d) ∧ Keeps (stopInv A) (finishFlow fuel f sc d) :=
+  ⟨abortFlow_keeps _ (hend_of_hall _ (stopInv_hall A)) fuel f sc d, finishFlow_keeps _ (hend_of_hall _ (stopInv_hall A)) fuel f sc d⟩
+
+/-- `slide` for head `h` of flow `f` (configuration `cfg`): from a state where only `A` is STOPPING it ends in a state
+    where still only `A` is STOPPING, or `f` has just been set STOPPING and `h` stands behind the last element; when it
+    raises, at most `f` has joined the STOPPING instances. -/
+theorem slide_writes_stopping_only_for_its_own_flow (A : List FUid) (fuel : Nat) (f : FUid) (h : HUid) (cfg : FlowCfg) :
+    ⦃fun s => ⌜(cfgInv f cfg).J s ∧ StopSub A s.ixs.ix.insts⌝⦄ slide fuel f h
+    ⦃post⟨fun _ s => ⌜(cfgInv f cfg).J s ∧ QS A f h cfg.elements.size s⌝, fun _ s => ⌜StopSub (f :: A) s.ixs.ix.insts⌝⟩⦄ :=
+  slide_stop A fuel f h cfg
+
+/-- every head handed back by `slide` belongs to the sliding flow -/
+theorem slide_hands_back_heads_of_its_flow (fuel : Nat) (f : FUid) (h : HUid) (s s' : VM) (r : List Key)
+    (heq : slide fuel f h s = .ok r s') : ∀ k ∈ r, k.1 = f := slide_heads fuel f h s s' r heq
+
+/-- `_abort_flow(f)` (not a deactivation) leaves `f` not STOPPING -/
+theorem abort_flow_clears_stopping (A : List FUid) (f : FUid) (fuel : Nat) (sc : List Score) :
+    ⦃fun s => ⌜(stopInv (f :: A)).J s⌝⦄ abortFlow fuel f sc false
+    ⦃post⟨fun _ s => ⌜(stopInv A).J s⌝, fun _ s => ⌜StopSub (f :: A) s.ixs.ix.insts⌝⟩⦄ := abortFlow_clears A f fuel sc
+
+/-- **`_advance_head_front`**: for every fuel, every `A` and every list of heads, a normal return from a state where only `A`
+    is STOPPING ends in such a state (when it raises, at most the flow of one of the heads has joined). -/
+theorem advance_head_front_restores_no_stopping (fuel : Nat) (A : List FUid) (heads : List Key) :
+    ⦃fun s => ⌜(stopInv A).J s⌝⦄ advanceHeadFront fuel heads
+    ⦃post⟨fun _ s => ⌜(stopInv A).J s⌝, fun _ s => ⌜StopSub A s.ixs.ix.insts ∨ ∃ k ∈ heads, StopSub (k.1 :: A) s.ixs.ix.insts⌝⟩⦄ :=
+  advStop fuel A heads
+
+/-- **`no_stopping_at_exit`** (T2 clause, proved): for every program, state without STOPPING instance, event, fuel and
+    sequence of tie-breaks — if the body of `run_to_completion` returns normally, no instance is STOPPING, and therefore
+    `runToCompletion` (body + exit assertion) returns normally in the same state: the assertion is redundant. -/
+theorem no_stopping_at_exit (fuel : Nat) (ev : Match.Ev) (s s' : VM) (h : NoStopping s.ixs.ix)
+    (heq : runBody fuel ev s = .ok () s') : NoStopping s'.ixs.ix ∧ runToCompletion fuel ev s = .ok () s' :=
+  ⟨runBody_no_stopping fuel ev s s' h heq, runToCompletion_of_runBody fuel ev s s' h heq⟩
+
+/-- non-vacuity: the initial index state has no STOPPING instance -/
+example : NoStopping ({} : IState) := by intro i hi; cases hi
+
+/-- `runToCompletion` is the body followed by the exit assertion, and a normal return of it is a normal return of the body -/
+theorem run_to_completion_is_body_then_assertion (fuel : Nat) (ev : Match.Ev) :
+    runToCompletion fuel ev = (do runBody fuel ev; exitAssertion) := runToCompletion_eq fuel ev
+
+/-- **fuel** (`outOfFuel` is kept apart from the interpreter's outcomes): the model's `try/except` catches Python exceptions
+    only; running out of fuel (like leaving the fragment, or a failed index guard) always propagates to the caller and is
+    never turned into a `ColangError` / flow abort. -/
+theorem out_of_fuel_is_never_caught {α : Type} (x : M α) (s s' : VM) (hx : x s = .error .outOfFuel s') :
+    attemptPy x s = .error .outOfFuel s' := attemptPy_outOfFuel x s s' hx
+
+/-- **`quiescent_partial`, phase 4**: a normal return of `runToCompletion` from a state without STOPPING instance, with the
+    "no instance STOPPING" clause now carried by the interpreter logic (`no_stopping_at_exit`) instead of the assertion. -/
+theorem quiescent_partial_no_assertion (fuel : Nat) (ev : Match.Ev) (s s' : VM) (h0 : NoStopping s.ixs.ix)
+    (h : runBody fuel ev s = .ok () s') :
+    s'.r.queue = []
+    ∧ NoStopping s'.ixs.ix
+    ∧ (∀ nm k, (bucket s'.ixs.ix nm).count k = (scan s'.ixs.ix).count (nm, k))
+    ∧ (∀ f i, findInst s'.ixs.ix f = some i → i.status.done = true → i.heads = [])
+    ∧ (∀ k nm, reg s'.ixs.ix k = some nm → ∃ i, findInst s'.ixs.ix k.1 = some i ∧ (i.findHead k.2).isSome) :=
+  quiescent_partial fuel ev s s' (no_stopping_at_exit fuel ev s s' h0 h).2
+
+/-- **`corevm_no_stopping`**: in every state of a run of the model — `initialize_state`, then any number of external events
+    processed by `runToCompletion` (any fuel, tie-breaks, clock) — no instance is STOPPING. -/
+theorem corevm_no_stopping (p : Prog) (s : VM) (h : Reach p s) : NoStopping s.ixs.ix := reach_no_stopping p s h
+
+/-- **`corevm_index_exact`**: hence, in EVERY state of a run of the model (after `initialize_state` and after each external
+    event), the dispatch index equals the from-scratch scan as multisets — no hypothesis left: `IndexOK` holds by
+    construction of the index component (the model stops instead of applying an operation whose guard fails), `NoStopping`
+    by `no_stopping_at_exit`. -/
+theorem corevm_index_exact (p : Prog) (s : VM) (h : Reach p s) (nm : String) (k : Key) :
+    (bucket s.ixs.ix nm).count k = (scan s.ixs.ix).count (nm, k) :=
+  quiescent_partial_index s (reach_no_stopping p s h) nm k
+
+/-- non-vacuity: a normal return of `initialize_state` is a reachable state -/
+example (p : Prog) (s : VM) (h : initializeState ({ r := { prog := p } } : VM) = .ok () s) : Reach p s := .init s h
+
+/-! ## `Parked` / `PendingCovers` — definitions and the part carried so far (phase 4) -/
+
+/-- with an empty worklist, the worklist invariant is the `Parked` clause of the property -/
+theorem pending_covers_with_empty_worklist_is_parked (s : VM) : PendingCovers [] s ↔ Parked s :=
+  parked_iff_pendingCovers_nil s
+
+/-- `PendingCovers W` is kept by every index operation that only removes heads, makes instances leave the listening
+    statuses, or moves / creates heads that are in `W` (`CovOp W`) — for every state, guard or not. -/
+theorem pending_covers_kept_by_worklist_operations (W : List Key) (s : VM) (op : Op) (hg : op.guard s.ixs.ix = true)
+    (h : PendingCovers W s) (hop : CovOp W op) : PendingCovers W { s with ixs := s.ixs.apply op hg } :=
+  (covInv W).step s op hg h hop
+
+/-- non-vacuity: the empty state satisfies `PendingCovers W`, and `dropHeads` is a `CovOp` -/
+example (W : List Key) (p : Prog) : PendingCovers W ({ r := { prog := p } } : VM) := by
+  intro i hi; cases hi
+example (W : List Key) (f : FUid) : CovOp W (.dropHeads f) := trivial
+
+/-- `_abort_flow` keeps `PendingCovers W` for every worklist `W`, on every outcome -/
+theorem abort_flow_keeps_pending_covers (W : List Key) (fuel : Nat) (f : FUid) (sc : List Score) (d : Bool) :
+    Keeps (covInv W) (abortFlow fuel f sc d) := abortFlow_pendingCovers W fuel f sc d
+
+/-- the head setters keep `PendingCovers W` for heads of the worklist (or a head that becomes INACTIVE) -/
+theorem head_setters_keep_pending_covers (W : List Key) (k : Key) (hk : k ∈ W) (p : Nat) (st : HeadStatus) :
+    Keeps (covInv W) (setHeadPos k p) ∧ Keeps (covInv W) (setHeadStatus k st) :=
+  ⟨setHeadPos_pendingCovers W k p hk, setHeadStatus_pendingCovers W k st (Or.inl hk)⟩
+
+/-- **`slide` confines loose heads**: while head `h` of flow `f` slides — every element kind, forks and merges, scope ends
+    with their `_abort_flow`s, the `Abort` element — every loose head stays in the worklist `W` or belongs to `f`, on every
+    outcome (normal return or raise). -/
+theorem slide_confines_loose_heads (f : FUid) (W : List Key) (fuel : Nat) (h : HUid) :
+    Keeps (covFlowInv f W) (slide fuel f h) := slide_coversOrFlow f W fuel h
+
+/-- non-vacuity / link: a state satisfying `PendingCovers W` satisfies the confinement invariant of every flow -/
+example (f : FUid) (W : List Key) (s : VM) (h : PendingCovers W s) : (covFlowInv f W).J s := coversOrFlow_of_pendingCovers h
+
+/-- **`add_new_flow_instance` keeps `PendingCovers W`**: the new instance (WAITING, one ACTIVE head on element 0) parks at once,
+    provided element 0 of the flow is a `match` — which `expand_elements` guarantees (`match StartFlow(flow_id=…)`) — and the
+    configuration handed in is the program's. -/
+theorem add_new_flow_instance_keeps_pending_covers (W : List Key) (p0 : Prog) (uid : FUid) (cfg : FlowCfg) (hp : String)
+    (args : List (String × Val)) (hcfg : p0.find cfg.id = some cfg) (spec : Spec) (internal : Bool)
+    (h0 : cfg.elements[0]? = some (.matchOp spec internal)) :
+    Keeps (covProgInv W p0) (addNewFlowInstance uid cfg hp args) :=
+  addNewFlowInstance_pendingCovers W p0 uid cfg hp args hcfg spec internal h0
+
+/-- non-vacuity of the two program hypotheses -/
+example :
+    let sp : Spec := { name := some "StartFlow", specType := .event, args := [], ref := none, members := none, varName := none }
+    let cfg : FlowCfg := { id := "a", elements := #[.matchOp sp true], labels := [], params := [], returnMembers := [],
+                           loopId := none, loopPriority := 0, metaTags := [] }
+    (Prog.mk [cfg]).find cfg.id = some cfg ∧ cfg.elements[0]? = some (.matchOp sp true) := by
+  simp [Prog.find]
+
+/-- **`_finish_flow` keeps `PendingCovers W`** (every worklist, every outcome) in programs whose flows all start with a `match`
+    element (`FirstIsMatch`, decidable per program; `expand_elements` puts `match StartFlow(flow_id=…)` first): children
+    aborted, heads dropped, the instance FINISHED — or, for the main flow, restarted WAITING and parked on element 0. -/
+theorem finish_flow_keeps_pending_covers (W : List Key) (p0 : Prog) (hfirst : FirstIsMatch p0) (fuel : Nat) (f : FUid)
+    (sc : List Score) (d : Bool) : Keeps (covProgInv W p0) (finishFlow fuel f sc d) :=
+  finishFlow_pendingCovers W p0 hfirst fuel f sc d
+
+/-- non-vacuity: the empty program, and a one-flow program starting with a `match` -/
+example : FirstIsMatch (Prog.mk []) := by intro cfg h; cases h
+example :
+    let sp : Spec := { name := some "StartFlow", specType := .event, args := [], ref := none, members := none, varName := none }
+    let cfg : FlowCfg := { id := "a", elements := #[.matchOp sp true], labels := [], params := [], returnMembers := [],
+                           loopId := none, loopPriority := 0, metaTags := [] }
+    FirstIsMatch (Prog.mk [cfg]) := by
+  intro sp cfg c h
+  simp only [List.mem_singleton] at h
+  subst h
+  exact ⟨sp, true, rfl⟩
+
+/-- **`_process_internal_events_without_default_matchers` keeps `PendingCovers W`** (programs with `FirstIsMatch`): StartFlow
+    creates an instance that parks at once, FinishFlow / StopFlow (by instance uid or by flow id) go through `_finish_flow` /
+    `_abort_flow`. -/
+theorem process_internal_event_keeps_pending_covers (W : List Key) (p0 : Prog) (hfirst : FirstIsMatch p0) (fuel : Nat) (e : Event) :
+    Keeps (covProgInv W p0) (processInternalEvent fuel e) := processInternalEvent_pendingCovers W p0 hfirst fuel e
+
 /-
-  T2 (NOT proved; kept as the target statement):
+  T2 (partially proved; kept as the target statement):
 
     theorem quiescent (fuel) (ev) (s s' : VM) :
         Inv s → runToCompletion fuel ev s = .ok () s' →
-        Inv s' ∧ NoStopping s'.ixs.ix                              -- ⇒ index s' = scan s' by `quiescent_partial`
+        Inv s' ∧ NoStopping s'.ixs.ix                              -- PROVED: `no_stopping_at_exit` (phase 4)
         ∧ Parked s'      -- every ACTIVE head of a listening instance is on a match / wait-for-heads element, none MERGING
-        ∧ NoPos s'       -- STOPPED / FINISHED instances have `heads = []`
+        ∧ NoPos s'       -- PROVED (by construction + T1)
         ∧ RefsLive s'    -- child_flow_uids, action_uids, scope members, index entries of listening instances exist
-    with `Inv (initializeState prog)`, proved by the worklist invariant "every ACTIVE head of a listening
-    instance that is not parked is in the pending list of the current loop" carried through
-    `advanceHeadFront`, the merging loop and `resolveActionConflicts`.
 
-  What is proved above: the queue clause (loop structure); the index clause, the no-position clause and the index part
-  of `RefsLive` (by construction + T1, for EVERY CoreVM state; the index clause needs `NoStopping`); two worklist facts.
-  `Parked`, the rest of `RefsLive`, and the fact that no instance is left STOPPING (and that the model never stops on a
-  failed guard) rest on the oracle evaluated on the real interpreter state after every event and on the CoreVM
-  correspondence (which compares heads, statuses, index, actions, queue length and the index-operation streams), not on
-  a theorem.  `RefsLive` is known to be violated by the code (findings dangling-scope-action, dangling-child).
+  Proved: the queue clause (loop structure); the index clause, the no-position clause and the index part of `RefsLive`
+  (by construction + T1, for EVERY CoreVM state; the index clause needs `NoStopping`); `NoStopping` at exit from the
+  interpreter logic (phase 4, unconditional); two worklist facts; the fuel separation.
+  NOT proved: `Parked` (the worklist invariant `PendingCovers` — "every non-parked active head of a listening instance is in
+  the pending list of the current loop" — is checked on the REAL interpreter at every loop boundary by the oracle clause
+  `pending-covers`, phase 4, but not yet carried through `slide` / `_advance_head_front` in Lean; the Hoare logic and the
+  per-function lemmas it needs are in place), the non-index part of `RefsLive` (violated by the code: findings), and that the
+  model never stops on a failed index guard (`AllGuards` of the emitted operation stream; the guards of `setPos`,
+  `setStatus`, `dropHeads`, `setFlowStatus` after `dropHeads` are local facts, `addInst` / `fork` need uid freshness,
+  `mainRestart` needs acyclicity of the child relation).  Those rest on the oracle evaluated on the real interpreter state
+  after every event and on the CoreVM correspondence (digests + index-operation streams).
 -/
 
 /-! Non-vacuity of the CoreVM statements: `runToCompletion … = .ok () s'` is what the driver observes for every
